@@ -343,6 +343,34 @@ ROUND7 = {
 }
 
 
+ROUND8 = {
+    ("Z1", "A"): ("C14", "hsla with alpha exactly 0 and no background returns the (missing) background: Color invalid with error None", None),
+    ("Z1", "B"): ("C07", "bare-hex regex written for lower case matched against the original string: 'FFF' rejected", None),
+    ("Z1", "C"): ("C13", "opaque RGBA tuples delegated to the 3-tuple reader: float channels <= 1 read as fractions when alpha is exactly 1", "RGBA tuples mixing int and float channels (0.0 / 1.0 / 255.0) at alpha 1, 1.0, 0.999 ..."),
+    ("Z2", "A"): ("C01", "relaxed decision ladder rewritten: option B's colour returned without setting success", None),
+    ("Z2", "B"): ("C02", "tie-break on contrasts rounded to 2 decimals", None),
+    ("Z2", "C"): ("C04", "schedule[-1] hoisted in front of the loop: IndexError for an empty schedule", None),
+    ("Z3", "A"): ("C18", "--default-bg var() reference re-bound per file", None),
+    ("Z3", "B"): ("C09", "'_cm' suffix not appended when the stem already ends in _cm: single-file run overwrites its input", None),
+    ("Z3", "C"): ("C08", "ASCII-only regex for the name in var(): properties with non-ASCII names are tuned and reported but never rewritten", "custom property names with letters beyond ASCII, leading underscore / hyphen, digits"),
+    ("Z4", "A"): ("C09", "existing output read as UTF-8 to skip up-to-date files: a stale output in a legacy encoding makes the file fail", "stale pre-existing outputs, every other one not valid UTF-8"),
+    ("Z4", "B"): ("C18", "--default-bg var() reference re-bound per file", None),
+    ("Z4", "C"): ("C19", "scanned folder's name shown unescaped in the report header", None),
+    ("Z5", "A"): ("C13", "text composited over the background as written, not as parsed", None),
+    ("Z5", "B"): ("C12", "new large_text parameter inserted before very_readable: positional callers shifted", "bulk calls with mode / very_readable / save_report passed by position"),
+    ("Z5", "C"): ("C17", "bulk report formats the raw tuple input: string-component / HSL tuples raise", None),
+    ("Z6", "A"): ("C19", "NFKC normalisation after escaping: full-width < > & \" become live markup", None),
+    ("Z6", "B"): ("C08", "listed selector cut to 60 characters", "selector lists well over 60 characters sharing a long common beginning"),
+    ("Z6", "C"): ("C17", "report cards de-duplicated through a set of (text, bg, large): list colours unhashable", None),
+    ("Z7", "A"): ("C07", "six-sector HSL with int(h / 60) indexing: a hue a hair below a multiple of 360 wraps to exactly 360.0 -> IndexError", "hues missing a multiple of 360 by 1e-14 .. 1e-22, written in plain decimals"),
+    ("Z7", "B"): ("C05", "level thresholds looked up in {False: ..., True: ...}.get(large): truthy non-bool flags ('yes', 24) get normal-text thresholds", "not claimed: the flag is documented as a bool; True/False/1/0 behave as before"),
+    ("Z7", "C"): ("C14", "hex digits accepted by str.isdigit(), values from a dict: non-ASCII digits raise KeyError", None),
+    ("Z8", "A"): ("C18", "--default-bg var() reference re-bound per file", None),
+    ("Z8", "B"): ("C08", "'changed' flag assigned (not OR-ed) from nested at-rules: a later sibling at-rule with nothing to fix resets it", "at-rule blocks also hold siblings without a text colour (plain rules, comments, further at-rules) before and after the rule"),
+    ("Z8", "C"): ("C15", "parser's white default made a module constant that a CLI run sets from --default-bg and never restores", None),
+}
+
+
 def archive(key, pid, src, v, needs, missed):
     if not os.path.exists(os.path.join(src, v + ".diff")):
         print(key, "missing deliverables")
@@ -382,6 +410,10 @@ def archive(key, pid, src, v, needs, missed):
 
 def main():
     want = sys.argv[1:]
+    if want and want[0] == "round8":
+        for (x, v), (pid, needs, missed) in sorted(ROUND8.items()):
+            archive(f"{pid}-R8{x}{v}", pid, os.path.join("/tmp/seed8", x + ".out"), v, needs, missed)
+        return
     if want and want[0] == "round7":
         for (pid, v), (needs, missed) in sorted(ROUND7.items()):
             if len(want) > 1 and f"{pid}{v}" not in want[1:]:
